@@ -92,7 +92,75 @@ fn total_order_laws<T: Ord + Clone + std::fmt::Debug>(name: &str, mk: impl Fn(i6
     }
 }
 
+/// Inner types that are only partially ordered (floats with NaN): the wrappers' operators must
+/// still agree with their own `partial_cmp` - every operator false where it is `None` - and the
+/// error wrapper must still be the mirror image of the score wrapper.
+fn partial_order_wrappers(rep: &mut Report) {
+    let pool = [f64::NAN, -f64::NAN, f64::NEG_INFINITY, -1.5, -0.0, 0.0, 1.5, f64::MAX, f64::INFINITY];
+    for &a in &pool {
+        for &b in &pool {
+            rep.eval();
+            rep.distinct(mix(fnv_str("float-wrappers"), mix(a.to_bits(), b.to_bits())));
+            let want = a.partial_cmp(&b);
+            let s = observe(&Score(a), &Score(b));
+            let e = observe(&Error(a), &Error(b));
+            if s != expected(want) || (Score(a) == Score(b)) != (a == b) {
+                rep.violation("C15/Score/operators-disagree-with-cmp", || json!({"inner_type": "f64", "a": format!("{a:?}"), "b": format!("{b:?}"), "observed": format!("{s:?}")}));
+            }
+            if e != expected(want.map(Ordering::reverse)) || (Error(a) == Error(b)) != (a == b) {
+                rep.violation("C15/Error/operators-disagree-with-cmp", || json!({"inner_type": "f64", "a": format!("{a:?}"), "b": format!("{b:?}"), "observed": format!("{e:?}")}));
+            }
+            let ts: TestResult<f64, f64> = TestResult::Score(Score(a));
+            let te: TestResult<f64, f64> = TestResult::Error(Error(b));
+            if observe(&ts, &te) != expected(None) {
+                rep.violation("C15/TestResult/score-comparable-to-error", || json!({"inner_type": "f64", "a": format!("{a:?}"), "b": format!("{b:?}")}));
+            }
+        }
+    }
+    // unsigned and 128-bit inner types at their extremes
+    for (a, b) in [(0u64, u64::MAX), (u64::MAX, u64::MAX), (1, 0), (u64::MAX - 1, u64::MAX)] {
+        rep.eval();
+        if observe(&Score(a), &Score(b)) != expected(Some(a.cmp(&b))) || observe(&Error(a), &Error(b)) != expected(Some(b.cmp(&a))) || Score(a).cmp(&Score(b)) != a.cmp(&b) || Error(a).cmp(&Error(b)) != b.cmp(&a) {
+            rep.violation("C15/Score-Error/unsigned", || json!({"a": a, "b": b}));
+        }
+    }
+    for (a, b) in [(i128::MIN, i128::MAX), (i128::MAX, i128::MAX), (-1i128, 0), (i128::MIN, i128::MIN + 1)] {
+        rep.eval();
+        if observe(&Score(a), &Score(b)) != expected(Some(a.cmp(&b))) || observe(&Error(a), &Error(b)) != expected(Some(b.cmp(&a))) {
+            rep.violation("C15/Score-Error/i128", || json!({"a": a.to_string(), "b": b.to_string()}));
+        }
+    }
+}
+
+/// Copies of individuals and result collections: `clone` and `clone_from` (also through
+/// `Vec::clone_from`, which overwrites existing elements in place) give an equal value.
+fn copies(seed: u64, rounds: usize, rep: &mut Report) {
+    let mut g = Xo::derive(seed, "C15-copies", 0);
+    for _ in 0..rounds {
+        let a = gen_results(&mut g);
+        let b = gen_results(&mut g);
+        if a.len() > 50 || b.len() > 50 {
+            continue;
+        }
+        let ia = EcIndividual::new(g.next() % 5, a.iter().copied().collect::<TestResults<Score<i64>>>());
+        let ib = EcIndividual::new(g.next() % 5 + 10, b.iter().copied().collect::<TestResults<Score<i64>>>());
+        rep.eval();
+        let mut target = ib.clone();
+        target.clone_from(&ia);
+        let mut pop = vec![ib.clone(), ib.clone(), ia.clone()];
+        let src = vec![ia.clone(), ia.clone()];
+        pop.clone_from(&src);
+        let mut tr = ib.test_results.clone();
+        tr.clone_from(&ia.test_results);
+        let ok = ia.clone() == ia && target == ia && target.genome == ia.genome && target.test_results == ia.test_results && pop == src && tr == ia.test_results && tr.total_result == ia.test_results.total_result;
+        if !ok {
+            rep.violation("C15/EcIndividual/copy-differs-from-original", || json!({"source_results": short(&a), "overwritten_results": short(&b), "clone_from_gives_genome": target.genome, "source_genome": ia.genome, "results_equal": target.test_results == ia.test_results}));
+        }
+    }
+}
+
 fn wrappers(rep: &mut Report) {
+    partial_order_wrappers(rep);
     total_order_laws("Score", Score, |a, b| a.cmp(&b), true, rep);
     total_order_laws("Error", Error, |a, b| b.cmp(&a), true, rep);
     // equality operators of the wrappers agree with the ordering
@@ -328,6 +396,7 @@ pub fn run(args: &Args) -> i32 {
     wrappers(&mut rep);
     aggregates(args.seed, args.tier.pick(2_000_000, 40_000_000), &mut rep);
     scoring(args.seed, args.tier.pick(500_000, 10_000_000), &mut rep);
+    copies(args.seed, args.tier.pick(200_000, 4_000_000), &mut rep);
     rep.finish(
         args,
         "exploration",
